@@ -846,7 +846,11 @@ struct World
 			const int hi = (int)rng.below((uint32_t)holders.size());
 			if(ops[holders[(size_t)hi].t].copyable) doNew(holders[(size_t)hi].t, F_FROM_HELD, hi);
 		}
-		else if(c < 46) doChain((int)rng.below((uint32_t)holders.size()), rng.range(1, 20));
+		else if(c < 46) {
+			const int hi = (int)rng.below((uint32_t)holders.size());
+			const int len = rng.range(1, 20);
+			doChain(hi, len);
+		}
 		else if(c < 52) {
 			const int hi = (int)rng.below((uint32_t)holders.size());
 			log(S("reread h", hi));
@@ -862,7 +866,8 @@ struct World
 		else if(c < 82) {
 			const int t = pickType(false);
 			const int fromIdx = pickHolderOfType(t);
-			doDispatch(t, pickForm(t, fromIdx >= 0), fromIdx);
+			const int form = pickForm(t, fromIdx >= 0);
+			doDispatch(t, form, fromIdx);
 		}
 		else if(c < 88) doProcess();
 		else if(c < 91) doProcessOne();
